@@ -529,6 +529,8 @@ class CallMixin:
                 mro_names = [c.name for c in ci.mro]
         c = self.registry.find(fi.qual + (".setter" if fi.is_setter else ""), mro_names)
         argmap = self.bind_params(fi, args, kwargs, path, node)
+        if c is not None and self.cur_contract is not None and fi.qual in self.cur_contract.inline_calls:
+            c = None
         if c is not None and not c.inline and not (self.cur_contract is c and not self.recursion_ok(c)):
             self.called_contracts.add(c.target)
             return self.apply_contract(c, argmap, path, node)
